@@ -10,7 +10,7 @@ META = {
     "technique": "Coq proof over a file-system tree model with symlinks (realpath with fuel, component-wise prefix) + differential run of security::validate_path on real temporary directory trees, judged against the OS's own resolution",
     "design_ref": "DESIGN.md §7 C31",
     "level_text": "Theorems C31_* in coq/theories/Path/Props.v: for every tree, work directory and request string, an accepted path is the realpath of the request, extends the work directory's realpath component-wise and names an object reached from the work directory's own node without following any symlink; escaping requests are refused; realpath's answer is a physical path. The model is tied to validate_path by running both on random trees with symlinks inside/outside, loops, dangling links, and random path strings",
-    "level_note": "By construction close to the definition of the check; the weight is on the tie. Trusted / modelled: the OS realpath(3) behind std::fs::canonicalize (model: components left to right, '..' physical, 40-symlink limit, ENOTDIR for a non-directory followed by anything), Path::starts_with as component-wise prefix, PathBuf::join; permissions (the check runs as the current user, no unreadable directories), mount points, hard links, case-insensitive or normalising file systems, time-of-check/time-of-use races between validate_path and the later read are out of scope. Fuel sufficiency of the model's realpath is not proved (only that more fuel never changes a successful answer); it is exercised by the run",
+    "level_note": "By construction close to the definition of the check; the weight is on the tie. Trusted / modelled: the OS realpath(3) behind std::fs::canonicalize (model: components left to right, '..' physical, 40-symlink limit, ENOTDIR for a non-directory followed by anything), Path::starts_with as component-wise prefix, PathBuf::join; permissions (the check runs as the current user, no unreadable directories), mount points, hard links, case-insensitive or normalising file systems, time-of-check/time-of-use races between validate_path and the later read are out of scope.",
 }
 
 NAMES = ["a", "b", "sub", "d", "f.txt", "g", "a b", "é", "..x", "x..", ".h", "~", "%2e%2e", "c\\d", "名", "...", "-", "ÿ"]
